@@ -9,6 +9,8 @@ An op list is plain data (replayable): each op is a tuple
   ('ins', pos, bytes)           insert bytes
   ('del', pos, n)               delete n bytes
   ('dup', start, end, pos)      splice a copy of [start:end) in at pos
+  ('neg', span_idx, k)          length prefix := -k, its value and the next k bytes removed (the next element then starts
+                                inside the prefix: the overlapping-elements shape)
 Positions are clamped to the current length, so every op list applies to every message.
 """
 from hypothesis import strategies as st
@@ -45,6 +47,16 @@ def apply(data, ops, frames, codec, hexbm):
                     enc = enc[:1] or b'\x00'
                 if e <= n:
                     data[s:e] = (enc + b'0' * (e - s))[:e - s] if len(enc) < e - s else enc[:e - s]
+        elif kind == 'neg':
+            lens = [i for i, f in enumerate(frames) if f[0] == 'len']
+            if lens:
+                i = lens[op[1] % len(lens)]
+                _, _, s, e = frames[i]
+                ve = frames[i + 1][3] if i + 1 < len(frames) and frames[i + 1][0] == 'value' else e
+                w = e - s
+                k = max(1, min(op[2], 10 ** (w - 1) - 1))
+                if ve + k <= n:
+                    data[s:] = _enc('-' + str(k).zfill(w - 1), codec) + bytes(data[ve + k:])
         elif kind == 'bit':
             b = op[1]
             if hexbm:
@@ -108,6 +120,8 @@ def op_lists(draw, data_len, frames, codec, min_ops=1, max_ops=4):
         choices = ['sub', 'sub', 'bit', 'trunc', 'ext', 'ins', 'del', 'dup']
         if nums:
             choices += ['num', 'num', 'num', 'numsub', 'numsub']
+        if any(f[0] == 'len' for f in frames):
+            choices += ['neg']
         kind = draw(st.sampled_from(choices))
         if kind == 'sub':
             ops.append(('sub', draw(uniform(0, max(0, data_len - 1))), draw(uniform(0, 255))))
@@ -121,6 +135,8 @@ def op_lists(draw, data_len, frames, codec, min_ops=1, max_ops=4):
                 ops.append(('num', idx, bytes([draw(st.sampled_from([0, 1, 2, 127, 128, 254, 255]))])))
             else:
                 ops.append(('num', idx, draw(st.sampled_from(numeral_texts(codec, width)))))
+        elif kind == 'neg':
+            ops.append(('neg', draw(uniform(0, 30)), draw(uniform(1, 12))))
         elif kind == 'bit':
             ops.append(('bit', draw(st.one_of(st.sampled_from([1, 2, 64, 65, 127, 128]), uniform(1, 128)))))
         elif kind == 'trunc':
